@@ -130,6 +130,22 @@ def _eq(a, b):
     return a.shape == b.shape and np.array_equal(a, b)
 
 
+def _obs(M):
+    """Dense content of a result for the report; never touches a malformed matrix (scipy's
+    C routines corrupt memory on inconsistent index arrays)."""
+    if not sps.issparse(M):
+        return repr(M)
+    if G.is_wellformed(M) is not None:
+        return {"malformed": G.is_wellformed(M), "indptr": np.asarray(M.indptr).tolist(),
+                "indices": np.asarray(M.indices).tolist(), "data": np.asarray(M.data).tolist(), "shape": list(M.shape)}
+    return M.toarray().tolist()
+
+
+def _eqm(M, exp):
+    """Sparse result equals the dense expectation (False for malformed storage)."""
+    return sps.issparse(M) and G.is_wellformed(M) is None and _eq(M.toarray(), exp)
+
+
 def _call(rec, tag, fn, *args, **detail):
     """Call the code under test; an exception is a violation."""
     try:
@@ -189,11 +205,11 @@ def run_slice(case, out):
                     bad = "shape %s, dense slicing gives %s" % (S.shape, exp.shape)
                 elif G.is_wellformed(S):
                     bad = "malformed result: " + G.is_wellformed(S)
-                elif not _eq(S.toarray(), exp):
+                elif not _eqm(S, exp):
                     bad = "values differ from dense slicing"
                 if bad:
                     rec.bad("slice_sparse_matrix", "slice_sparse_matrix: " + bad, expected=exp.tolist(),
-                            observed=S.toarray().tolist() if sps.issparse(S) else repr(S), **det)
+                            observed=_obs(S), **det)
                     cls = "VIOLATION"
             else:
                 cls = "VIOLATION"
@@ -259,12 +275,12 @@ def run_zero(case, out):
                 bad = None
                 if res is not None:
                     bad = "returned something (documented: None, in place)"
-                elif not _eq(A.toarray(), exp):
+                elif not _eqm(A, exp):
                     bad = "values differ from dense zeroing"
                 elif not (_eq(A.indptr, ip) and _eq(A.indices, ix)):
                     bad = "sparsity structure changed"
                 if bad:
-                    rec.bad(name, f"{name}: " + bad, expected=exp.tolist(), observed=A.toarray().tolist(), **det)
+                    rec.bad(name, f"{name}: " + bad, expected=exp.tolist(), observed=_obs(A), **det)
                     cls = "VIOLATION"
             else:
                 cls = "VIOLATION"
@@ -320,11 +336,11 @@ def run_merge(case, out):
                             bad = "shape changed"
                         elif G.is_wellformed(A):
                             bad = "malformed result: " + G.is_wellformed(A)
-                        elif not _eq(A.toarray(), exp):
+                        elif not _eqm(A, exp):
                             bad = "values differ from dense assignment A[lines] = B"
                         if bad:
                             rec.bad("merge_matrices" + ("" if srt else "-unsorted"), "merge_matrices: " + bad,
-                                    expected=exp.tolist(), observed=A.toarray().tolist(), **det)
+                                    expected=exp.tolist(), observed=_obs(A), **det)
                             cls = "VIOLATION"
                     else:
                         cls = "VIOLATION"
@@ -385,17 +401,17 @@ def run_stack(case, out):
                                 bad = "shape %s, dense stacking gives %s" % (C.shape, exp.shape)
                             elif G.is_wellformed(C):
                                 bad = "malformed result: " + G.is_wellformed(C)
-                            elif not _eq(C.toarray(), exp):
+                            elif not _eqm(C, exp):
                                 bad = "values differ from dense stacking"
                             elif not _eq(C.indices[: a_idx.size], a_idx):
                                 bad = "order of the indices of A changed"
-                            elif diag and not (_eq(A.toarray(), D) and _eq(B.toarray(), DB)):
+                            elif diag and not (_eqm(A, D) and _eqm(B, DB)):
                                 bad = "stack_diag modified an argument"
-                            elif not diag and not _eq(B.toarray(), DB):
+                            elif not diag and not _eqm(B, DB):
                                 bad = "stack_mat modified B"
                             if bad:
                                 rec.bad(name, f"{name}: " + bad, expected=exp.tolist(),
-                                        observed=C.toarray().tolist() if sps.issparse(C) else repr(C), **det)
+                                        observed=_obs(C), **det)
                                 cls = "VIOLATION"
                         else:
                             cls = "VIOLATION"
@@ -429,7 +445,7 @@ def run_misc(case, out):
                     bad = "returned the argument itself"
                 elif not sps.issparse(C) or C.format != fmt or C.shape != (r, c):
                     bad = "format or shape differs"
-                elif not _eq(C.toarray(), D):
+                elif not _eqm(C, D):
                     bad = "values differ"
                 elif fmt != "coo" and not (_eq(C.indices, A.indices) and _eq(C.indptr, A.indptr)):
                     bad = "order of indices changed"
@@ -447,7 +463,7 @@ def run_misc(case, out):
             want = "csc" if r > c else "csr"
             cls = f"optimized_storage/{fmt}->{want}"
             if ok:
-                if not sps.issparse(C) or C.format != want or C.shape != (r, c) or not _eq(C.toarray(), D):
+                if not sps.issparse(C) or C.format != want or C.shape != (r, c) or not _eqm(C, D):
                     rec.bad("optimized_compressed_storage", "optimized_compressed_storage: wrong format or values",
                             expected_format=want, observed_format=getattr(C, "format", None), **det)
                     cls = "VIOLATION"
@@ -489,7 +505,7 @@ def run_misc(case, out):
                 cls = f"kron/{fmt}/nd{nd}"
                 if ok:
                     exp = np.kron(D, np.eye(nd))
-                    if not sps.issparse(Kp) or Kp.shape != exp.shape or not _eq(Kp.toarray(), exp):
+                    if not sps.issparse(Kp) or Kp.shape != exp.shape or not _eqm(Kp, exp):
                         rec.bad("sparse_kronecker_product", "sparse_kronecker_product differs from numpy.kron(A, eye(nd))",
                                 nd=nd, **det)
                         cls = "VIOLATION"
@@ -554,11 +570,11 @@ def run_sparse_blocks(case, out):
                     bad = "shape %s, block_diag gives %s" % (M.shape, exp.shape)
                 elif G.is_wellformed(M):
                     bad = "malformed result: " + G.is_wellformed(M)
-                elif not _eq(M.toarray(), exp):
+                elif not _eqm(M, exp):
                     bad = "values differ from the dense block diagonal matrix"
                 if bad:
                     rec.bad(target + "_from_sparse_blocks", f"{target}_matrix_from_sparse_blocks: " + bad,
-                            expected=exp.tolist(), observed=M.toarray().tolist() if sps.issparse(M) else repr(M), **det)
+                            expected=exp.tolist(), observed=_obs(M), **det)
                     cls = "VIOLATION"
             else:
                 cls = "VIOLATION"
@@ -579,9 +595,9 @@ def run_dense_blocks(case, out):
                 ok, M = _call(rec, target + "_from_dense_blocks", fn, data.copy(), bs, nb, **det)
                 cls = f"dense_blocks/{target}/bs{bs}"
                 if ok:
-                    if not sps.issparse(M) or M.format != target or M.shape != exp.shape or G.is_wellformed(M) or not _eq(M.toarray(), exp):
+                    if not sps.issparse(M) or M.format != target or M.shape != exp.shape or not _eqm(M, exp):
                         rec.bad(target + "_from_dense_blocks", f"{target}_matrix_from_dense_blocks differs from dense block diagonal",
-                                expected=exp.tolist(), observed=M.toarray().tolist() if sps.issparse(M) else repr(M), **det)
+                                expected=exp.tolist(), observed=_obs(M), **det)
                         cls = "VIOLATION"
                 else:
                     cls = "VIOLATION"
